@@ -12,8 +12,8 @@ RULE = ("seeded maps: kinds {uniform, smoothed, bumps, quantised ties/plateaus, 
 ASSUMPTIONS = ["|values| <= 100 (kornia's geodesic dilation border is -1e4)", "integral_patch_size >= 2 (a 1-pixel patch has a zero-extent crop box)",
                "refinement bound asserted for thresholds >= 0 (a peak value > 0 guarantees a non-zero normaliser on same-sign patches)"]
 SHARDS = {"quick": 4, "thorough": 16}
-N = {"quick": 2000, "thorough": 300000}
-BUDGET = {"quick": 100, "thorough": 900}
+N = {"quick": 4000, "thorough": 900000}
+BUDGET = {"quick": 100, "thorough": 600}
 TIMEOUT = {"quick": 600, "thorough": 2400}
 SELF_SHARDED = True
 KEY_MIXED = "integral-refinement-unbounded-on-mixed-sign-patch"
